@@ -60,6 +60,20 @@ pub fn run(ctx: &Ctx) -> Result<(), String> {
     }
     // part 2: flood lasso
     let lasso = crate::sched::flood_lasso(ctx)?;
+    // part 4: TLA+ lifecycle model (TLC: invariants + termination under fairness) bound to the
+    // implementation by replaying a transition cover of its state graph under the controller
+    let mut model_runs = vec![];
+    let mut model_traces = 0u64;
+    let mut model_states = 0u64;
+    let mut model_trans = 0u64;
+    for (n, stats) in ctx.tier.pick(vec![(1usize, true), (2, false)], vec![(1, false), (1, true), (2, false), (2, true), (3, false), (3, true)]) {
+        let r = crate::sched::lifecycle_conformance(ctx, n, stats)?;
+        model_traces += r["traces_replayed"].as_u64().unwrap_or(0);
+        model_states += r["model_states"].as_u64().unwrap_or(0);
+        model_trans += r["model_transitions"].as_u64().unwrap_or(0);
+        model_runs.push(r);
+    }
+    ctx.cov("lifecycle_model", json!(model_runs));
 
     // part 3: wall-clock conformance (sampled): idle and closed-loop, swept delays, both signals
     let mut sampled = vec![];
@@ -221,9 +235,9 @@ pub fn run(ctx: &Ctx) -> Result<(), String> {
             sp.kill();
         }
     }
-    ctx.cov("states", json!(sched.states + lasso["rounds"].as_u64().unwrap_or(0)));
-    ctx.cov("transitions", json!(sched.transitions + lasso["steps"].as_u64().unwrap_or(0)));
-    ctx.cov("traces_validated_against_impl", json!(sched.executions + lasso["executions"].as_u64().unwrap_or(0)));
+    ctx.cov("states", json!(sched.states + lasso["rounds"].as_u64().unwrap_or(0) + model_states));
+    ctx.cov("transitions", json!(sched.transitions + lasso["steps"].as_u64().unwrap_or(0) + model_trans));
+    ctx.cov("traces_validated_against_impl", json!(sched.executions + lasso["executions"].as_u64().unwrap_or(0) + model_traces));
     ctx.cov("evaluations", json!(sched.executions + lasso["executions"].as_u64().unwrap_or(0)));
     ctx.cov("distinct_nontrivial", json!(sched.executions + lasso["executions"].as_u64().unwrap_or(0)));
     ctx.cov("controlled_schedules", sched.to_json());
@@ -231,7 +245,7 @@ pub fn run(ctx: &Ctx) -> Result<(), String> {
     ctx.cov("sampled_wall_clock", json!(sampled));
     ctx.cov("caps_hit", json!(sched.caps_hit));
     ctx.cov("exhaustive", json!(sched.caps_hit.is_empty()));
-    ctx.cov("rule", json!("(1) the real server process under the controlled scheduler: N workers, client_stats off/on, K requests; the environment action signal(INT|TERM) is placed at every position of the request program and, being an actor, is interleaved at every point of every explored schedule (iterative preemption bounding). Oracle: after the signal the process exits with status 0 under the fair default continuation within the horizon; no enabled actor while alive = deadlock; horizon exceeded = livelock; no panic text; every datagram a client received is an authentic reply. (2) flood lasso: after the flag is stored an adversarial environment refills the worker's socket with batch_size datagrams (valid / rejected / mixed) before every step of the worker inside process_events (per received datagram, per response, per batch); the worker must reach flag_check within the step bound of a bounded drain (a recurring abstract state without flag_check is a lasso). (3) sampled wall-clock runs of the free-running binary (idle / after closed-loop load, swept delays, both signals, client_stats off/on): exit 0 within 5 s."));
+    ctx.cov("rule", json!("(1) the real server process under the controlled scheduler: N workers, client_stats off/on, K requests; the environment action signal(INT|TERM) is placed at every position of the request program and, being an actor, is interleaved at every point of every explored schedule (iterative preemption bounding). Oracle: after the signal the process exits with status 0 under the fair default continuation within the horizon; no enabled actor while alive = deadlock; horizon exceeded = livelock; no panic text; every datagram a client received is an authentic reply. (2) flood lasso: after the flag is stored an adversarial environment refills the worker's socket with batch_size datagrams (valid / rejected / mixed) before every step of the worker inside process_events (per received datagram, per response, per batch); the worker must reach flag_check within the step bound of a bounded drain (a recurring abstract state without flag_check is a lasso). (4) a TLA+ model of the whole lifecycle (main, N workers, reporter, signal) checked by TLC for its invariants and for termination under weak fairness, bound to the implementation by replaying a transition cover of its state graph under the controller and comparing the enabled-actor sets at every step. (3) sampled wall-clock runs of the free-running binary (idle / after closed-loop load, swept delays, both signals, client_stats off/on): exit 0 within 5 s."));
     ctx.sample(json!({"kind":"schedule","scenario":"shutdown-n2-stats0-k2-INT-pos1","schedule":["env:send(c1,C)","env:signal(INT)","worker-0@loop_top(0)","worker-0@polled(1)"]}));
     ctx.assume("signal delivery is one atomic environment action: kill(), then wait until the flag store is observed (the handler thread does nothing else)");
     ctx.assume("'a few seconds' is decided in steps (bounded liveness under the fair continuation); wall-clock runs are conformance evidence");
